@@ -163,12 +163,11 @@ impl Executor for IndexScan {
                 .as_ref()
                 .ok_or(RuntimeError::CursorUninitialized)?
                 .get_tree();
-            let maybe_row = tree
-                .get_row_at(next_pos, &self.index_schema, &snapshot)?
-                .filter(|r| {
-                    self.evaluate_index_predicate(r)
-                        .expect("Predicate evaluation failed")
-                });
+            // A predicate that cannot be evaluated (e.g. a type error) is the statement's error, not a panic.
+            let maybe_row = match tree.get_row_at(next_pos, &self.index_schema, &snapshot)? {
+                Some(r) if self.evaluate_index_predicate(&r)? => Some(r),
+                _ => None,
+            };
 
             if maybe_row.is_none() {
                 continue;
@@ -183,12 +182,10 @@ impl Executor for IndexScan {
                 table_tree.search(row_key_bytes.as_ref(), &self.table_schema)?;
 
             if let SearchResult::Found(found_pos) = actual_row_result {
-                let actual_row = tree
-                    .get_row_at(found_pos, &self.table_schema, &snapshot)?
-                    .filter(|r| {
-                        self.evaluate_residual_predicate(r)
-                            .expect("Predicate evaluation failed")
-                    });
+                let actual_row = match tree.get_row_at(found_pos, &self.table_schema, &snapshot)? {
+                    Some(r) if self.evaluate_residual_predicate(&r)? => Some(r),
+                    _ => None,
+                };
 
                 if actual_row.is_none() {
                     continue;
